@@ -81,15 +81,16 @@ def sig_of(b):
     if w == "accepted":
         return f"accepted|{d.get('why')}"
     if w == "malformed":
-        return f"malformed|{d.get('reason')}"
+        return f"malformed|{d.get('reason')}|{d.get('what')}"
     return w
 
 
 def collect(rep, tr, cases, jobs, accept, sigx=None):
     for b in tr.bad:
+        c = cases[b["case"]]
+        b["_case"] = c
         if not accept(b):
             continue
-        c = cases[b["case"]]
         j = jobs[b["case"]]
         sig = sig_of(b)
         if sigx:
@@ -203,6 +204,200 @@ def check_c02(tier, seed):
     canary(rep, evs, "c02")
     k = len(cases) // 2
     rep.samples = [{"source": jobs[k]["sources"][0][-300:], "n": cases[k]["env"]["args"]["n"], "denotes": cases[k]["expect"], "why": cases[k].get("why")}]
+    return rep.finish()
+
+
+# ------------------------------------------------------------------------------------- C08 / C09 / C10
+LCFG = """CONSTANTS
+  Depth = 1
+  Mode = "{mode}"
+  NInputs = {ninputs}
+  Features = {{{features}}}
+  CtorIxs = {{{ixs}}}
+  FieldCounts = {{{nfs}}}
+  MaxCase = 139
+INIT Init
+NEXT Next
+INVARIANTS OracleDefined EmitCase
+CHECK_DEADLOCK FALSE
+"""
+FEATURES = ["metadata", "input_redeemer", "mint", "mint_redeemer", "burn_same", "burn_other_asset", "burn_all",
+            "optional_empty", "optional_full", "reference", "reference_twice", "collateral", "signers", "signers_dup",
+            "datum", "second_input", "validity"]
+
+
+def gen_ledger(rep, mode, tag, ninputs=2, features=(), ixs=(0,), nfs=(0,), workers=6, simulate=None, seed=None):
+    r = core.tlc_mc("MC_Ledger", LCFG.format(mode=mode, ninputs=ninputs, features=q(features), ixs=", ".join(map(str, ixs)),
+                                             nfs=", ".join(map(str, nfs))), tag, workers=workers, timeout=2400,
+                    heap="10g", simulate=simulate, seed=seed)
+    rep.add_tlc(r)
+    return r.cases
+
+
+def check_c08(tier, seed):
+    rep = core.Report("C08", tier, seed)
+    rep.rule = ("a case is a template with NInputs script inputs (the first optionally multi-UTxO) whose UTxO references are drawn "
+                "injectively from 3 transaction ids x 3 output indices (every relative order; source order, name order and ledger "
+                "order all differ), redeemers on all or some inputs, 0..3 mint/burn blocks over three policies (hash order differs "
+                "from source order; optionally the first as a burn) and 0..2 withdrawals with redeemers; the decoded redeemer map "
+                "(tag, index) -> data must equal the one built by sorting items as the ledger does. non-trivial: at least two "
+                "redeemers of one tag; distinct = distinct (reference assignment, shape).")
+    rep.assumptions = ["TLC 1.8, Json module", "ledger orders: inputs by (txid bytes, index), policies and reward accounts by bytes",
+                       "withdrawal sources are stake addresses (the reward account of a base address is not specified here)"]
+    core.build_driver()
+    quick = tier == "quick"
+    cases = gen_ledger(rep, "c08", "c08_mc", ninputs=2, workers=6 if quick else 12)
+    rep.exhaustive = True
+    rng = random.Random(seed)
+    if not quick:
+        more = gen_ledger(rep, "c08", "c08_mc3", ninputs=3, workers=12)
+        rng.shuffle(more)
+        cases += more[:30000]
+        rep.exhaustive = False
+        rep.notes.append("3-input universe sampled to 30000 cases")
+    elif len(cases) > 3000:
+        rng.shuffle(cases)
+        cases = cases[:3000]
+        rep.exhaustive = False
+        rep.notes.append("2-input universe sampled to 3000 cases in the quick tier (thorough runs all)")
+    rep.extra["programs"] = len(cases)
+    jobs, evs, tr = run_cases(cases, "c08", seed, 8 if quick else 12, layouts=(0,))
+    rep.add_trace(tr)
+    rep.evaluations = len(cases)
+    for c in cases:
+        m = c["meta"]
+        if m["reds"] == "all" or m["mints"] >= 2 or m["wds"] >= 2:
+            rep.distinct.add(core.digest(m))
+    collect(rep, tr, cases, jobs, lambda b: (b["why"] == "field" and b["detail"].get("field") in ("redeemers", "withdrawals", "mint", "inputs"))
+            or b["why"] in ("rejected", "panic"),
+            lambda sig, b, c: sig + ("|wds>0" if c["meta"]["wds"] and b["detail"].get("field") == "redeemers" else "")
+            + ("|many" if c["meta"]["many"] and b["detail"].get("field") == "redeemers" and not c["meta"]["wds"] else ""))
+    canary(rep, evs, "c08")
+    rep.samples = [{"meta": cases[0]["meta"], "source": jobs[0]["sources"][0][-700:]}]
+    return rep.finish()
+
+
+C09_INTS = [0, 1, -1, 23, 24, 255, 256, 65535, 65536, 2**32, -2**32, 2**63 - 1, -2**63, 2**63, 2**64 - 1, 2**64, -2**64, -2**64 - 1,
+            2**127 - 1, -2**127]
+C09_LENS = [0, 1, 23, 24, 64, 65, 100]
+
+
+def check_c09(tier, seed):
+    rep = core.Report("C09", tier, seed)
+    rep.rule = ("a case is a variant type with 140 cases in which the constructed case `ix` has `nf` fields of one type (Int, Bytes, "
+                "Bool, nested record, List<Int>, Map<Int,Bytes>), placed in an output datum or a mint redeemer; integers take "
+                "every boundary value across the i128 range, byte strings lengths 0..100. The inline datum / redeemer bytes are "
+                "parsed by the driver's own Plutus Data reader and must equal Enc(value) with standard framing (tags 121-127, "
+                "1280-1400, 102; CBOR int vs bignum). non-trivial: ix >= 7 or a field value outside 64 bits or a nested field; "
+                "distinct = distinct (ix, nf, type, position, values).")
+    rep.assumptions = ["TLC 1.8, Json module", "the driver's Plutus Data reader (cbor.rs / ledger.rs plutus()) written from the CDDL",
+                       "definite vs indefinite list framing is not judged"]
+    core.build_driver()
+    quick = tier == "quick"
+    a = gen_ledger(rep, "c09", "c09_a", ixs=range(0, 140), nfs=(0, 1) if quick else (0, 1, 2), workers=6 if quick else 12)
+    b = gen_ledger(rep, "c09", "c09_b", ixs=(0, 6, 7, 127, 128, 139), nfs=range(0, 7), workers=6 if quick else 12)
+    rng = random.Random(seed)
+    cases = []
+    seen = set()
+    for c in a + b:
+        m = c["meta"]
+        key = (m["ix"], m["nf"], m["ty"], m["where"])
+        if key in seen:
+            continue
+        seen.add(key)
+        if quick and m["ix"] not in (0, 6, 7, 127, 128, 139) and m["ty"] not in ("Int", "Rec"):
+            continue
+        variants = [(7, [9])]
+        if m["nf"] >= 1 and m["ty"] in ("Int", "ListInt") and m["ix"] in (0, 1, 7, 130, 139):
+            variants += [(n, [9]) for n in C09_INTS]
+        if m["nf"] >= 1 and m["ty"] in ("Bytes", "MapIntBytes", "Rec") and m["ix"] in (0, 7, 128):
+            variants += [(7, [k % 256 for k in range(ln)]) for ln in C09_LENS]
+        for n, bts in variants:
+            c2 = copy.deepcopy(c)
+            c2["env"]["args"]["n"] = {"k": "number", "num": core.big(n)}
+            c2["env"]["args"]["b"] = {"k": "bytes", "v": bts}
+            c2["meta"] = dict(m, n=str(n), blen=len(bts))
+            cases.append(c2)
+            if m["ix"] >= 7 or abs(n) >= 2**64 or m["ty"] in ("Rec", "ListInt", "MapIntBytes"):
+                rep.distinct.add(core.digest(c2["meta"]))
+    rep.extra["programs"] = len(cases)
+    jobs, evs, tr = run_cases(cases, "c09", seed, 8 if quick else 12, layouts=(0,))
+    rep.add_trace(tr)
+    rep.evaluations = len(cases)
+
+    def sigx(sig, b, c):
+        m = c["meta"]
+        ixc = "ix<=6" if m["ix"] <= 6 else "ix7..127" if m["ix"] <= 127 else "ix>=128"
+        big = "|beyond64" if abs(int(m["n"])) >= 2**64 and m["ty"] in ("Int", "ListInt") and m["nf"] else ""
+        return f"{sig}|{ixc}{big}"
+
+    collect(rep, tr, cases, jobs, lambda b: b["why"] in ("field", "framing", "rejected", "panic", "accepted"), sigx)
+    canary(rep, evs, "c09")
+    k = len(cases) // 2
+    rep.samples = [{"meta": cases[k]["meta"], "source_tail": jobs[k]["sources"][0][-260:]}]
+    return rep.finish()
+
+
+def check_c10(tier, seed):
+    rep = core.Report("C10", tier, seed)
+    rep.rule = ("a case is one subset of the block-presence lattice (metadata, input / mint redeemers, mint, burns cancelling a mint "
+                "per asset / per policy / totally, optional outputs that are empty or not, references incl. the same UTxO twice, "
+                "collateral, signers incl. duplicates, datum, second input, validity) x network x cost-model availability; the payload "
+                "is decoded by pallas and by the driver's CBOR reader and must be well formed (body hash, aux/script-data hash "
+                "presence and value, no empty or duplicate entries, no zero mint, network id), identical over three layouts and "
+                "over a second driver process. non-trivial: at least three features present; distinct = distinct (subset, cfg).")
+    rep.assumptions = ["TLC 1.8, Json module", "pallas decoder and Blake2b (trusted base for 'a standard decoder accepts' and digests)",
+                       "the script-data hash is recomputed independently for Plutus V2/V3 language views only"]
+    core.build_driver()
+    quick = tier == "quick"
+    feats = FEATURES if not quick else ["metadata", "input_redeemer", "mint", "mint_redeemer", "burn_same", "burn_other_asset",
+                                        "burn_all", "optional_empty", "reference_twice", "signers", "signers_dup", "collateral"]
+    cases = gen_ledger(rep, "c10", "c10_mc", features=feats, workers=6 if quick else 12)
+    rep.exhaustive = True
+    rng = random.Random(seed)
+    limit = 4096 if quick else 40000
+    if len(cases) > limit:
+        rng.shuffle(cases)
+        cases = cases[:limit]
+        rep.exhaustive = False
+        rep.notes.append(f"lattice sampled to {limit} subsets")
+    # configurations: network x cost models
+    full = []
+    for i, c in enumerate(cases):
+        c2 = copy.deepcopy(c)
+        net = i % 2
+        c2["env"]["cfg"]["network"] = net
+        c2["cm"] = ["all", "all", "v1", "none"][i % 4] if not quick else ["all", "all", "all", "none"][i % 4]
+        full.append(c2)
+        if len(c["meta"]["fs"]) >= 3:
+            rep.distinct.add(core.digest([c["meta"], net, c2["cm"]]))
+    rep.extra["programs"] = len(full)
+    jobs = jobs_for(full, seed)
+    for j, c in zip(jobs, full):
+        j["cfg"]["cost_models"] = c["cm"]
+    r1 = core.run_driver(jobs)
+    r2 = core.run_driver(jobs)         # a second process
+    evs = []
+    for j, c in zip(jobs, full):
+        head = [{"ev": "Case", "prog": core.untlcify(c["prog"]), "env": core.untlcify(c["env"])}]
+        a, b = r1[j["id"]], r2[j["id"]]
+        if "events" not in a:
+            evs.append(head + [{"ev": "Pipeline", "layout": 0, "outcome": "panic", "stage": "driver", "site": "abort",
+                                "msg": str(a)[:80], "kind": "", "payload": ""}])
+            continue
+        body = [slim(e) for e in a["events"]]
+        pa = a["events"][0].get("payload", "")
+        pb = b.get("events", [{}])[0].get("payload", "") if "events" in b else "?"
+        evs.append(head + body + [{"ev": "Repro", "first": pa, "second": pb, "where": "second process"}])
+    tr = core.tlc_trace("Trace_Lang", evs, "c10", nproc=8 if quick else 12)
+    rep.add_trace(tr)
+    rep.evaluations = len(full) * 6
+    # without the cost model of the language in use, failing is the right answer when redeemers are present
+    collect(rep, tr, full, jobs, lambda b: b["why"] in ("malformed", "repro", "layout", "panic")
+            or (b["why"] == "rejected" and b["_case"]["cm"] == "all"),
+            lambda sig, b, c: sig + (f"|cost_models={c['cm']}" if b["why"] in ("panic", "rejected") else ""))
+    canary(rep, evs, "c10")
+    rep.samples = [{"features": full[5]["meta"]["fs"], "cost_models": full[5]["cm"], "source_tail": jobs[5]["sources"][0][-500:]}]
     return rep.finish()
 
 
